@@ -91,10 +91,23 @@ def run(tier='quick'):
         for c in calls:
             getattr(chk, c[0])(*c[1], **c[2])
     # sibling readers (single-field getter path vs snapshot path) filter rows identically
-    funcs = c01.v1_storage_functions(prog)
-    maps = [m for m in rowrules.expand_sites(prog, cg, eff, funcs)
-            if (m.stmt.table or '').lower() in c01.TRACK_TABLES]
-    c01._filter_agreement(chk, G2, maps)
+    # the statements under the getters, the setters and the snapshot path tie every column to one row
+    # field / parameter, in every range copy (a transposed column list in one copy makes the snapshot
+    # path and the single-field path read different columns for the same field)
+    G5 = chk.rule('G5', 'all statements on the track tables (both generations, every schema-range copy) tie each '
+                        'column to the same row field or parameter; sibling readers filter rows identically',
+                  floor=20)
+    cats = rowrules.version_catalogs(prog)
+    c01.statement_agreement(prog, cg, eff, chk, None, G5, None, order, cats, 0, v2lo - 1, v2lo,
+                            max(order.index(e) for e in supported))
+    # every 2.x setter and most 1.x setters read-modify-write a blob through decode / encode: an
+    # asymmetric codec makes a setter of one field change another (value-flow treats codecs as transparent)
+    G6 = chk.rule('G6', 'the codecs the setters read-modify-write through are symmetric: encoder and decoder agree '
+                        'item by item and every stored member is written from itself; no member update is made on '
+                        'a dropped local copy', floor=30)
+    from . import c03
+    c03.symmetry(prog, chk, G6)
+    rowrules.lost_updates(prog, chk, G6)
     _row_scope(prog, cg, eff, chk, S3)
     _facade(prog, cg, chk, F1)
     G4 = chk.rule('G4', 'the util helpers that lift a conversion over std::optional between nullable columns and optional getter / setter values yield a value exactly when given one', floor=4)
